@@ -20,15 +20,15 @@ type memWTStream struct {
 	out *halfPipe
 }
 
-func (s *memWTStream) Read(p []byte) (int, error)        { return s.in.Read(p) }
-func (s *memWTStream) Write(p []byte) (int, error)       { return s.out.Write(p) }
-func (s *memWTStream) Close() error                      { s.out.CloseWrite(); return nil }
-func (s *memWTStream) StreamID() quic.StreamID           { return 4 }
-func (s *memWTStream) CancelWrite(wt.StreamErrorCode)    {}
-func (s *memWTStream) CancelRead(wt.StreamErrorCode)     {}
-func (s *memWTStream) SetWriteDeadline(time.Time) error  { return nil }
-func (s *memWTStream) SetReadDeadline(time.Time) error   { return nil }
-func (s *memWTStream) SetDeadline(time.Time) error       { return nil }
+func (s *memWTStream) Read(p []byte) (int, error)       { return s.in.Read(p) }
+func (s *memWTStream) Write(p []byte) (int, error)      { return s.out.Write(p) }
+func (s *memWTStream) Close() error                     { s.out.CloseWrite(); return nil }
+func (s *memWTStream) StreamID() quic.StreamID          { return 4 }
+func (s *memWTStream) CancelWrite(wt.StreamErrorCode)   {}
+func (s *memWTStream) CancelRead(wt.StreamErrorCode)    {}
+func (s *memWTStream) SetWriteDeadline(time.Time) error { return nil }
+func (s *memWTStream) SetReadDeadline(time.Time) error  { return nil }
+func (s *memWTStream) SetDeadline(time.Time) error      { return nil }
 
 // realSession creates a real *webtransport.Session on mocked transport.
 type realSession struct {
@@ -148,9 +148,9 @@ func genWTLen(t *rapid.T, W int, label string) (int, string) {
 var wtWriteBufSizes = []int{0, 16, 17, 64, 100, 125, 126, 127, 128, 512, 1024, 4096, 4097, 16384}
 
 type fragReader struct {
-	data  []byte
-	frags []int
-	i     int
+	data        []byte
+	frags       []int
+	i           int
 	eofWithData bool
 }
 
